@@ -76,6 +76,10 @@ FALLBACK_CLASSES = ('TlsExtensionUnparsed', 'HttpHeaderFieldUnparsed', 'SshCertE
                     'TlsKeyShareEntryInvalidType', 'TlsInvalidTypeOneByte', 'TlsInvalidTypeTwoByte')
 
 
+def _text_family(cls):
+    return lib.ref_of(cls).startswith(('cryptoparser.httpx.', 'cryptoparser.common.field:', 'cryptoparser.dnsrec.txt:'))
+
+
 def wrappers_of(cls):
     """Variant wrappers whose member list contains exactly this class."""
     if not _WRAPPERS:
@@ -169,6 +173,11 @@ def round_trip(obj, huge, role='top', parser_cls=None, use_wrappers=False):
             key = 'not-equal:%s/%s' % (lib.field_of_diff(difference), name)
         findings.append(Finding(key, {'difference': difference[:300], 'composed': data.hex()[:120], 'role': role}))
     # through the variant wrappers that dispatch to this class (generated objects of non-fallback classes only)
+    if use_wrappers == 'parsed' and (_text_family(cls) or (name == 'SshX509Certificate' and data[:1] == b'\x30')):
+        # an object parsed by its class directly need not be one its dispatcher can hand out: free text that an earlier
+        # member of the dispatcher claims ('nonce-...' read as a host source), a header-less X.509 host certificate
+        # (x509v3-sign-rsa / -dss: bare DER, no algorithm name to dispatch on)
+        use_wrappers = False
     for wrapper in (wrappers_of(cls) if use_wrappers and name not in FALLBACK_CLASSES and not terminator else ()):
         wrapped = lib.call(wrapper.parse_exact_size, data)
         if not wrapped.ok:
@@ -210,7 +219,7 @@ def judge(case):
     if obj is None:
         return status, [], None
     status, findings, data = round_trip(obj, huge, parser_cls=lib.resolve(case['cls']) if 'cls' in case else None,
-                                        use_wrappers='spec' in case)
+                                        use_wrappers=True if 'spec' in case else ('parsed' if 'cls' in case else False))
     if status in ('ok', 'finding') and data is not None:
         for child in nested_parsables(obj):
             _child_status, child_findings, _ = round_trip(child, huge, role='nested in ' + _short(type(obj)))
